@@ -229,6 +229,94 @@ class OrderDomain(Domain):
         return state
 
 
+Piece = namedtuple("Piece", "of")  # the argument text or a part cut out of it (slice, split, partition, strip of brackets)
+Made = namedtuple("Made", "by")  # text produced by some other operation from the argument
+IntOf = namedtuple("IntOf", "of")
+CUTTERS = ("split", "rsplit", "partition", "rpartition", "strip", "lstrip", "rstrip", "removeprefix", "removesuffix")
+TESTS = ("startswith", "endswith", "isdigit", "find", "rfind", "index", "count", "isalnum")
+
+
+class PieceDomain(Domain):
+    async_enabled = False
+    subscript_may_raise = False
+    unpack_may_raise = False
+
+    def truth(self, v, state=None):
+        if isinstance(v, (Piece, Made)):
+            return None
+        return super().truth(v, state)
+
+    def never_none(self, v):
+        return isinstance(v, (Piece, Made, IntOf)) or super().never_none(v)
+
+    def attr_load(self, objval, node, state):
+        if isinstance(objval, (Piece, Made)):
+            return ("smeth", objval, node.attr)
+        if isinstance(objval, Opaque) and objval.tag.startswith("made-object:"):
+            return Made(objval.tag[12:])  # an attribute of an object some function made out of the text
+        return TOP
+
+    def subscript_load(self, objval, idxval, node, state):
+        if isinstance(objval, Piece):
+            return Piece(objval.of), False  # a slice / an element of a split
+        if isinstance(objval, Made):
+            return objval, False
+        return TOP, False
+
+    def unpack(self, value, n, node, state):
+        if isinstance(value, (Piece, Made)):
+            return [value] * n, False
+        return super().unpack(value, n, node, state)
+
+    def binop(self, node, l, r, state):
+        for v in (l, r):
+            if isinstance(v, (Piece, Made)):
+                return Made("`%s`" % node_src(node, 40))
+        return super().binop(node, l, r, state)
+
+    def fstring(self, node, parts, state):
+        return TOP  # only used for messages
+
+    def call(self, node, fval, args, kwargs, state):
+        name = call_name(node)
+        if isinstance(fval, tuple) and fval and fval[0] == "smeth":
+            _, obj, attr = fval
+            if isinstance(obj, Piece) and attr in CUTTERS:
+                return [("ok", Piece(obj.of), state)]
+            if attr in TESTS:
+                return [("ok", TOP, state)]
+            return [("ok", Made("%s.%s()" % ("the text" if isinstance(obj, Piece) else obj.by, attr)), state)]
+        if name == "isinstance":
+            return [("ok", TOP, state)]
+        if name == "int" and args and isinstance(args[0], Piece):
+            return [("ok", IntOf(args[0].of), state), ("exc", Exc(ORD, "ValueError", node.lineno), state)]
+        if name in ("len", "bool"):
+            return [("ok", TOP, state)]
+        if name in ("str",) and args and isinstance(args[0], (Piece, Made)):
+            return [("ok", args[0], state)]
+        src = [a for a in list(args) + list(kwargs.values()) if isinstance(a, (Piece, Made))]
+        if src:
+            return [("ok", Opaque("made-object:%s(...)" % name), state)]
+        return [("ok", TOP, state)]
+
+
+def _rewritten(v):
+    """None if the returned value consists of pieces of the argument (and integers), else a description."""
+    if isinstance(v, Piece) or isinstance(v, IntOf) or (isinstance(v, Const) and isinstance(v.v, int)):
+        return None
+    if isinstance(v, TupleV):
+        for x in v.items:
+            b = _rewritten(x)
+            if b is not None:
+                return b
+        return None
+    if isinstance(v, Made):
+        return "text made by %s" % v.by
+    if isinstance(v, Opaque) and v.tag.startswith("made-object:"):
+        return "an object made by %s" % v.tag[12:]
+    return "a value this rule cannot trace back to the argument (%s)" % (v,)
+
+
 def spec_winner(order, score_rank, name_rank):
     best = max(score_rank[i] for i in order)
     cands = [i for i in order if score_rank[i] == best]
@@ -461,6 +549,22 @@ def run(chk):
             asg = [n for n in walk_no_nested(f.node) if isinstance(n, ast.Assign) and isinstance(n.targets[0], ast.Name) and n.targets[0].id == var]
             ok = len(asg) == 1 and asg[0].value is calls[0]
         r5.expect(ok, "HashClient.%s names the node by _make_client_key(server)" % mname, "HashClient.%s:node-name" % mname, "HashClient.%s does not pass _make_client_key(server) to the hasher" % mname, fn=f, node=f.node)
+    # the AWS subclass rebuilds the rotation on re-discovery: afterwards exactly the advertised nodes are in it (C19.R2)
+    from . import rules_C19, report
+
+    report.include_rules(chk, r4, rules_C19, ("C19.R2",), "after re-discovery the rotation is exactly the advertised node set, whatever the failover history")
+    # the normaliser only cuts the spec apart: host and port of the result are pieces of the given text, never text
+    # that some other function produced from it (case folding, URL / IDNA canonicalisation, ...), so two spellings are
+    # told apart or identified by exactly the documented rules
+    ns = prog.function("pymemcache/client/base.py", "normalize_server_spec")
+    pdom = PieceDomain(prog, ns)
+    pouts = Interp(pdom, ns.node, prog).run(Env({ns.pos_params()[0].name: Piece("the spec")}))
+    n_ret = 0
+    for s_, v, t in pouts.of("ret"):
+        n_ret += 1
+        bad = _rewritten(v)
+        r5.expect(bad is None, "normalize_server_spec returns pieces of its argument", "normalize_server_spec:host-rewritten", "normalize_server_spec returns %s: the host (or path) is no longer a piece of the text the caller gave, so spellings that the documented rules tell apart can collapse and spellings that are equal can get different node names (e.g. `Cache-A:11211` as a string vs. the tuple ('Cache-A', 11211))" % (bad,), fn=ns, node=ns.node, witness=fmt_trace(t))
+    r5.floor("return paths of normalize_server_spec", n_ret, 3)
     chk.assume("scores are non-negative integers (C14.R1), so the initial best score -1 is below every score")
     chk.assume("node names are str (HashClient._make_client_key yields str), so str(node) is the identity")
     chk.assume("HRW theorem: the argmax of per-node scores that depend only on (node, key) moves a key only from a removed node / onto an added node")
